@@ -431,7 +431,7 @@ class DataFrame:
         return _hash
 
     def __iter__(self):
-        return iter(self._rows)
+        yield from self._rows
 
     def __len__(self) -> int:
         self.materialize()
